@@ -17,6 +17,11 @@ from mirsym.models import some, none
 
 def run_task(task):
     if task.get('kind') == 'version': return run_version(task)
+    if task.get('kind') == 'filestack':
+        from . import C19
+        r = C19.run_task(task['t'])
+        r['violations'] = [v for v in r.get('violations', []) if v['kind'] == 'input-dropped']
+        return r
     return C03.run_task(task)
 
 
@@ -68,19 +73,21 @@ def main(tier, replay=None):
     orig_tasks = c3.tasks
 
     def tasks(tier, prop='C02'):
-        return [{'kind': 'version', 'pragma': True, 'prop': 'C02'}, {'kind': 'version', 'pragma': False, 'prop': 'C02'}] + orig_tasks(tier, prop)
+        return [{'kind': 'version', 'pragma': True, 'prop': 'C02'}, {'kind': 'version', 'pragma': False, 'prop': 'C02'},
+                {'kind': 'filestack', 't': {'part': 'new', 'n': 1}, 'prop': 'C02'}, {'kind': 'filestack', 't': {'part': 'new', 'n': 2}, 'prop': 'C02'}] + orig_tasks(tier, prop)
     c3.tasks = tasks
     orig_scen = c3.scenario_of
 
     def scenario_of(t, v):
         if t.get('kind') == 'version':
             m = v['model']; return {'kind': 'version', 'req': [m.get('maj', 0), m.get('min', 0), m.get('pat', 0)] if t['pragma'] else None}
+        if t.get('kind') == 'filestack': return {'kind': 'missing-input', 'n': t['t']['n']}
         return orig_scen(t, v)
     c3.scenario_of = scenario_of
     orig_is = c3.is_c02_violation
-    c3.is_c02_violation = lambda sc, v: True if sc.get('kind') == 'version' else orig_is(sc, v)
+    c3.is_c02_violation = lambda sc, v: True if sc.get('kind') in ('version', 'missing-input') else orig_is(sc, v)
     orig_role = c3.role_of
-    c3.role_of = lambda sc, v, prop: {'function': 'check_compiler_version', 'kind': v['kind'], 'class': 'any'} if sc.get('kind') == 'version' else orig_role(sc, v, prop)
+    c3.role_of = lambda sc, v, prop: {'function': 'check_compiler_version', 'kind': v['kind'], 'class': 'any'} if sc.get('kind') == 'version' else ({'function': 'FileStack::new', 'kind': v['kind'], 'class': 'missing-input'} if sc.get('kind') == 'missing-input' else orig_role(sc, v, prop))
     # route this module's run_task through the shared pool
     orig_run = common.run_tasks
     common_run = lambda mod, ts, **kw: orig_run('specs.C02', ts, **kw)
